@@ -103,7 +103,18 @@ def gen_case(rng, shape_class=None, big=False):
         "face_centres": rng.choice(["derived", "derived", "supplied"]),
         "kind": kind, "lead": lead, "dtype": dtype, "style": style, "vals": vals,
         "normalize": rng.random() < 0.5,
+        # provenance of the node coordinates (as in C04): lon/lat only, Cartesian only, both;
+        # supplied Cartesian coordinates on the unit sphere or on a sphere of another radius
+        "node_prov": rng.choice(["ll", "ll", "xyz", "xyz", "both"]),
+        "radius": rng.choice([1.0, 1.0, 6371.229, 0.37]),
     }
+    # history on the one Grid object: reads of the two distance tables and data operations in random
+    # order, some repeated; every table is read again at the end
+    ops = ["end", "efd", "diff", "grad", "gradn"]
+    hist = [rng.choice(ops) for _ in range(rng.randrange(0, 5))]
+    rest = [o for o in ops if o not in hist]
+    rng.shuffle(rest)
+    case["history"] = hist + rest + [rng.choice(["grad", "gradn", "diff"])]
     return case
 
 
@@ -121,8 +132,16 @@ def build_grid(case):
     lon = np.array(case["lon"], float)
     lat = np.array(case["lat"], float)
     ds = xr.Dataset()
-    ds["node_lon"] = xr.DataArray(lon.copy(), dims=["n_node"])
-    ds["node_lat"] = xr.DataArray(lat.copy(), dims=["n_node"])
+    prov = case.get("node_prov", "ll")
+    if prov in ("ll", "both"):
+        ds["node_lon"] = xr.DataArray(lon.copy(), dims=["n_node"])
+        ds["node_lat"] = xr.DataArray(lat.copy(), dims=["n_node"])
+    if prov in ("xyz", "both"):
+        rad = float(case.get("radius", 1.0))
+        lo, la = np.deg2rad(lon), np.deg2rad(lat)
+        ds["node_x"] = xr.DataArray(rad * np.cos(lo) * np.cos(la), dims=["n_node"])
+        ds["node_y"] = xr.DataArray(rad * np.sin(lo) * np.cos(la), dims=["n_node"])
+        ds["node_z"] = xr.DataArray(rad * np.sin(la), dims=["n_node"])
     ds["face_node_connectivity"] = xr.DataArray(table_of(case), dims=["n_face", "n_max_face_nodes"],
                                                 attrs=dict(ugrid.FACE_NODE_CONNECTIVITY_ATTRS))
     r = random.Random(case["sup_seed"])
@@ -172,42 +191,70 @@ def edge_faces_truth(case, edge_nodes):
 # ---------------------------------------------------------------------------------------------
 
 def run_impl(case):
+    """drive ONE Grid object through the case's history; every read of a distance table and every
+    result of a data operation is recorded (copies), in order"""
+    import itertools
+    import uxarray as ux
     g, supplied = build_grid(case)
     out = {"g": g, "supplied": supplied}
     out["edge_nodes"] = np.asarray(g.edge_node_connectivity.values).copy()
     out["edge_faces"] = np.asarray(g.edge_face_connectivity.values).copy()
     out["n_edge"] = int(g.n_edge)
-    out["end"] = np.asarray(g.edge_node_distances.values, dtype=float).copy()
-    out["efd"] = np.asarray(g.edge_face_distances.values, dtype=float).copy()
+    da, arr = data_array(case, g)
+    out["arr"] = arr
+    out["da"] = da
+    if case["kind"] == "face":
+        fda = da
+    else:
+        # gradient calls of the history act on an auxiliary face-centred field (results not examined)
+        fda = ux.UxDataArray(np.arange(len(case["faces"]), dtype=float) * 1.5, dims=["n_face"], uxgrid=g, name="aux")
+    reads = {"end": [], "efd": []}
+    results = {"diff": [], "grad": [], "gradn": []}
+    trace = []
+    history = list(case.get("history") or ["end", "efd", "diff", "grad", "gradn"]) + ["end", "efd"]
+    for op in history:
+        trace.append(op)
+        if op == "end":
+            reads["end"].append((len(trace), np.asarray(g.edge_node_distances.values, dtype=float).copy()))
+        elif op == "efd":
+            reads["efd"].append((len(trace), np.asarray(g.edge_face_distances.values, dtype=float).copy()))
+        elif op == "diff":
+            results["diff"].append(da.difference(destination="edge"))
+        elif op == "grad":
+            r = fda.gradient(normalize=False)
+            if fda is da:
+                results["grad"].append(r)
+        elif op == "gradn":
+            r = fda.gradient(normalize=True)
+            if fda is da:
+                results["gradn"].append(r)
+    out["reads"] = reads
+    out["end"] = reads["end"][-1][1]
+    out["efd"] = reads["efd"][-1][1]
+    out["results"] = results
+    out["diff"] = results["diff"][0]
+    if case["kind"] == "face":
+        out["grad"] = results["grad"][0]
+        out["gradn"] = results["gradn"][0]
     out["face_lon"] = np.asarray(g.face_lon.values, dtype=float).copy()
     out["face_lat"] = np.asarray(g.face_lat.values, dtype=float).copy()
     out["node_lon"] = np.asarray(g.node_lon.values, dtype=float).copy()
     out["node_lat"] = np.asarray(g.node_lat.values, dtype=float).copy()
-    da, arr = data_array(case, g)
-    out["arr"] = arr
-    out["da"] = da
-    out["diff"] = da.difference(destination="edge")
-    if case["kind"] == "face":
-        out["grad"] = da.gradient(normalize=False)
-        out["gradn"] = da.gradient(normalize=True)
-        # independence along leading dimensions: the same call on every leading slice
-        if case["lead"]:
-            sl = []
-            import itertools
-            import uxarray as ux
-            for idx in itertools.product(*[range(k) for k in case["lead"]]):
-                sub = ux.UxDataArray(arr[idx].copy(), dims=["n_face"], uxgrid=g, name="v")
-                sl.append((idx, np.asarray(sub.difference(destination="edge").values),
-                           np.asarray(sub.gradient(normalize=False).values)))
-            out["slices"] = sl
-    elif case["lead"]:
+    # independence along leading dimensions: the same call on every leading slice
+    if case["lead"]:
         sl = []
-        import itertools
-        import uxarray as ux
         for idx in itertools.product(*[range(k) for k in case["lead"]]):
-            sub = ux.UxDataArray(arr[idx].copy(), dims=["n_node"], uxgrid=g, name="v")
-            sl.append((idx, np.asarray(sub.difference(destination="edge").values), None))
+            sub = ux.UxDataArray(arr[idx].copy(), dims=["n_" + case["kind"]], uxgrid=g, name="v")
+            sl.append((idx, np.asarray(sub.difference(destination="edge").values),
+                       np.asarray(sub.gradient(normalize=False).values) if case["kind"] == "face" else None))
         out["slices"] = sl
+    # state after the history
+    out["after"] = {
+        "data": np.asarray(da.values).copy(), "data_dtype": str(da.dtype),
+        "edge_nodes": np.asarray(g.edge_node_connectivity.values).copy(),
+        "edge_faces": np.asarray(g.edge_face_connectivity.values).copy(),
+        "supplied": {k: np.asarray(g._ds[k].values).copy() for k in supplied},
+    }
     return out
 
 
@@ -221,78 +268,100 @@ def spec_check(ck, case, o):
     g = o["g"]
     en, ef = o["edge_nodes"], o["edge_faces"]
     n_edge = o["n_edge"]
-    nl, na = o["node_lon"], o["node_lat"]
+    # node directions: the source's own (case) coordinates, whatever system the Grid was given
+    nl, na = case["lon"], case["lat"]
     nodes_u = [unit(nl[i], na[i]) for i in range(len(nl))]
     faces_u = [unit(o["face_lon"][i], o["face_lat"][i]) for i in range(len(o["face_lon"]))]
     tf = edge_faces_truth(case, en)
     n_node, n_face = len(nl), len(faces_u)
-    base = {"n_face_vs_n_node": "F>V" if n_face > n_node else ("F<V" if n_face < n_node else "F=V")}
+    base = {"n_face_vs_n_node": "F>V" if n_face > n_node else ("F<V" if n_face < n_node else "F=V"),
+            "node_prov": case.get("node_prov", "ll"), "radius_is_one": float(case.get("radius", 1.0)) == 1.0}
+    hist = list(case.get("history") or []) + ["end", "efd"]
 
-    # ---- edge_node_distances
-    if case["sup_end"]:
-        if not np.array_equal(o["end"], o["supplied"]["edge_node_distances"]):
-            rep(ck, case, "supplied_passthrough", dict(base, quantity="edge_node_distances", signature="other"))
-    else:
-        if o["end"].shape != (n_edge,):
-            rep(ck, case, "shape", dict(base, quantity="edge_node_distances", signature="other"))
-        else:
-            for e in range(n_edge):
-                t = geodesic(nodes_u[int(en[e][0])], nodes_u[int(en[e][1])])
-                if not (abs(mp.mpf(float(o["end"][e])) - t) <= dist_tol(t)):
-                    rep(ck, case, "edge_node_distance", dict(base, quantity="edge_node_distances", signature="other"),
-                        {"edge": e, "impl": float(o["end"][e]), "truth": float(t)})
-                    break
+    # ---- edge_node_distances: every read along the history
+    true_end = [geodesic(nodes_u[int(en[e][0])], nodes_u[int(en[e][1])]) for e in range(n_edge)]
+    for pos, tab in o["reads"]["end"]:
+        info = dict(base, quantity="edge_node_distances", read_position=pos, after_ops=sorted(set(hist[:pos - 1])),
+                    signature="other")
+        if case["sup_end"]:
+            if not np.array_equal(tab, o["supplied"]["edge_node_distances"]):
+                rep(ck, case, "supplied_passthrough", info)
+                break
+            continue
+        if tab.shape != (n_edge,):
+            rep(ck, case, "shape", info)
+            break
+        bad = None
+        for e in range(n_edge):
+            v = float(tab[e])
+            if not (np.isfinite(v) and abs(mp.mpf(v) - true_end[e]) <= dist_tol(true_end[e])):
+                bad = e
+                break
+        if bad is not None:
+            rep(ck, case, "edge_node_distance", info, {"edge": bad, "impl": float(tab[bad]), "truth": float(true_end[bad]),
+                                                     "history": hist[:pos]})
+            break
 
-    # ---- edge_face_distances
+    # ---- edge_face_distances: every read along the history
     true_efd = []
     for e in range(n_edge):
         fs = tf[e]
         true_efd.append(geodesic(faces_u[fs[0]], faces_u[fs[1]]) if len(fs) == 2 else mp.mpf(0))
     if case["sup_efd"]:
-        if not np.array_equal(o["efd"], o["supplied"]["edge_face_distances"]):
-            rep(ck, case, "supplied_passthrough", dict(base, quantity="edge_face_distances", signature="other"))
         D = [frac(x) for x in o["supplied"]["edge_face_distances"]]
         Dtol = [0.0] * n_edge
     else:
-        D = [Fraction(0)] * n_edge
         D = None
         Dtol = [dist_tol(t) for t in true_efd]
-        if o["efd"].shape != (n_edge,):
-            rep(ck, case, "shape", dict(base, quantity="edge_face_distances", signature="other"))
-        else:
-            bad = None
-            for e in range(n_edge):
-                v = float(o["efd"][e])
-                if len(tf[e]) != 2:
-                    if v != 0.0:
-                        bad = (e, "boundary_not_zero")
-                        break
-                    continue
-                if not (np.isfinite(v) and abs(mp.mpf(v) - true_efd[e]) <= Dtol[e]):
-                    bad = (e, "interior")
+    for pos, tab in o["reads"]["efd"]:
+        info = dict(base, quantity="edge_face_distances", read_position=pos, after_ops=sorted(set(hist[:pos - 1])),
+                    signature="other")
+        if case["sup_efd"]:
+            if not np.array_equal(tab, o["supplied"]["edge_face_distances"]):
+                rep(ck, case, "supplied_passthrough", info, {"history": hist[:pos]})
+                break
+            continue
+        if tab.shape != (n_edge,):
+            rep(ck, case, "shape", info)
+            break
+        bad = None
+        for e in range(n_edge):
+            v = float(tab[e])
+            if len(tf[e]) != 2:
+                if v != 0.0:
+                    bad = (e, "boundary_not_zero")
                     break
-            if bad:
-                sig = "other"
-                if bad[1] == "interior":
-                    ids = [int(x) for r in ef for x in r if x != FILL]
-                    if max(ids) >= n_node:
-                        sig = "face_indices_beyond_node_arrays"
-                    else:
-                        ok = True
-                        for e in range(n_edge):
-                            if ef[e][1] == FILL:
-                                continue
-                            t = geodesic(nodes_u[int(ef[e][0])], nodes_u[int(ef[e][1])])
-                            v = float(o["efd"][e])
-                            if np.isnan(v) and (t < 1e-6 or t > mp.pi - 1e-6):
-                                continue        # arccos of 1+ulp / -1-ulp
-                            if not (np.isfinite(v) and abs(mp.mpf(v) - t) <= dist_tol(t)):
-                                ok = False
-                                break
-                        if ok:
-                            sig = "node_coordinates_at_face_indices"
-                rep(ck, case, "edge_face_distance", dict(base, quantity="edge_face_distances", signature=sig),
-                    {"edge": bad[0], "why": bad[1], "impl": float(o["efd"][bad[0]]), "truth": float(true_efd[bad[0]])})
+                continue
+            if not (np.isfinite(v) and abs(mp.mpf(v) - true_efd[e]) <= Dtol[e]):
+                bad = (e, "interior")
+                break
+        if bad:
+            rep(ck, case, "edge_face_distance", dict(info, signature=bad[1]),
+                {"edge": bad[0], "impl": float(tab[bad[0]]), "truth": float(true_efd[bad[0]]), "history": hist[:pos]})
+            break
+
+    # ---- the history leaves tables, data and connectivity as they were
+    for q in ("end", "efd"):
+        first = o["reads"][q][0][1]
+        for pos, tab in o["reads"][q][1:]:
+            if not np.array_equal(first, tab, equal_nan=True):
+                rep(ck, case, "table_changed_by_history", dict(base, quantity="edge_node_distances" if q == "end" else
+                                                               "edge_face_distances", signature="other"),
+                    {"first_read_at": o["reads"][q][0][0], "changed_at": pos, "history": hist[:pos]})
+                break
+    aft = o["after"]
+    if aft["data_dtype"] != str(o["arr"].dtype) or not np.array_equal(aft["data"], o["arr"]):
+        rep(ck, case, "data_changed_by_operation", dict(base, quantity="data", signature="other"))
+    if not (np.array_equal(aft["edge_nodes"], en) and np.array_equal(aft["edge_faces"], ef)):
+        rep(ck, case, "connectivity_changed_by_operation", dict(base, quantity="connectivity", signature="other"))
+    for k, v in o["supplied"].items():
+        if not np.array_equal(aft["supplied"][k], v):
+            rep(ck, case, "supplied_table_changed", dict(base, quantity=k, signature="other"))
+    for k, lst in o["results"].items():
+        for r in lst[1:]:
+            if not np.array_equal(np.asarray(lst[0].values), np.asarray(r.values), equal_nan=True):
+                rep(ck, case, "result_depends_on_history", dict(base, quantity=k, signature="other"))
+                break
 
     # ---- differences / gradients
     arr = o["arr"]
